@@ -47,6 +47,8 @@ func (d Damage) String() string {
 		return fmt.Sprintf("32-bit field at offset %d set to %#x%s", d.At, d.Val, extra)
 	case "extend":
 		return fmt.Sprintf("extended by %d bytes", d.At)
+	case "lie-length":
+		return fmt.Sprintf("Content-Length announced as %d", d.Val)
 	case "zero":
 		return fmt.Sprintf("bytes from offset %d zeroed", d.At)
 	}
@@ -78,6 +80,9 @@ func (c15Sim) Decode(raw json.RawMessage) (interface{}, error) {
 
 func (c15Sim) Gen(prop, tier string, r *rand.Rand) interface{} {
 	l := genLayout(r, pick(r, "tiny", "small", "small", "edge", "four"))
+	if r.IntN(12) == 0 {
+		l = genLayout(r, pick(r, "page", "page", "page", "big")) // files of several (many) pages
+	}
 	c := &C15Case{Layout: l, Clock0: genClock0(r, l), DSeed: r.Uint64(), SchedSeed: r.Uint64()}
 	c.File = WFile{Base: "src", Rel: "v/file.wsp", Layout: l, Fills: genFills(r, l, 0, 0.9)}
 	switch r.IntN(10) {
@@ -105,7 +110,7 @@ func (c15Sim) Gen(prop, tier string, r *rand.Rand) interface{} {
 	return c
 }
 
-var boundary32 = []uint64{0, 1, 2, 0x40000000, 0x3fffffff, 0x20000000, 60, 0x7fffffff, 0x80000000, 0xffffffff, 0x15555556, 0x0aaaaaab, 0x15555555, 0x10000000, 0xfffffff4, 1000000, 0x04000000}
+var boundary32 = []uint64{0, 1, 2, 341, 1000, 4096, 0x40000000, 0x3fffffff, 0x20000000, 60, 0x7fffffff, 0x80000000, 0xffffffff, 0x15555556, 0x0aaaaaab, 0x15555555, 0x10000000, 0xfffffff4, 1000000, 0x04000000}
 var boundary64 = []uint64{0, 1, 0x7fffffff, 0x80000000, 0xffffffff, 0x100000000, 1 << 62, 1 << 63, math.MaxUint64, 0x1555555555555556, 0x0aaaaaaaaaaaaaab}
 
 // damages enumerates the damages applied to an object of the given size whose
@@ -114,8 +119,12 @@ var boundary64 = []uint64{0, 1, 0x7fffffff, 0x80000000, 0xffffffff, 0x100000000,
 // seeded bit flips, extension and zeroing.
 func damages(r *rand.Rand, size, hdr int64, wireOffsets []int64) []Damage {
 	var out []Damage
+	every := int64(20)
+	if size > 12000 {
+		every = size / 600 // at most ~600 sampled truncation lengths beyond the first 600
+	}
 	for n := int64(0); n < size; n++ {
-		if n < 600 || n > size-4 || r.IntN(20) == 0 {
+		if n < 600 || n > size-4 || r.Int64N(every) == 0 {
 			out = append(out, Damage{Kind: "truncate", At: n})
 		}
 	}
@@ -258,6 +267,17 @@ func c15Stored(e *Env, c *C15Case, base []byte) {
 	hdr := int64(16 + 12*len(c.Layout.Archs))
 	list := damages(r, int64(len(base)), hdr, nil)
 	list = append(list, retentionWrapDamages(c.Layout)...)
+	if len(base) > 40000 && c.Only == nil {
+		// every operation on such a file touches tens of thousands of slots:
+		// keep the header-field grid and a seeded quarter of the rest
+		var keep []Damage
+		for _, d := range list {
+			if d.Kind == "field" || r.IntN(4) == 0 {
+				keep = append(keep, d)
+			}
+		}
+		list = keep
+	}
 	if c.Only != nil {
 		list = []Damage{*c.Only}
 	}
@@ -455,6 +475,8 @@ func c15Wire(e *Env, c *C15Case) {
 	// offsets of the series / point-list framing that follows the header
 	wire := []int64{hdr, hdr + 4, hdr + 8}
 	list := damages(rng, bodyLen, hdr, wire)
+	// a server that lies about the length of its answer
+	list = append(list, Damage{Kind: "lie-length", Val: 256 << 20}, Damage{Kind: "lie-length", Val: 1 << 62}, Damage{Kind: "lie-length", Val: uint64(bodyLen) + 1})
 	if c.Only != nil {
 		list = []Damage{*c.Only}
 	}
